@@ -73,10 +73,11 @@ func simLeafCert(id int) []byte {
 }
 
 type simHTTPSub struct {
-	Entry *simEntry
-	rec   *httptest.ResponseRecorder
-	done  chan struct{}
-	stop  context.CancelFunc
+	Entry    *simEntry
+	rec      *httptest.ResponseRecorder
+	done     chan struct{}
+	stop     context.CancelFunc
+	panicked string // value the handler panicked with (read after done is closed)
 }
 
 // simHTTPChain is a submission other than the plain final certificate: the chain as posted, and the entry the log has
@@ -117,7 +118,16 @@ func (s *simSys) simHTTPSubmit(in *simInst, id int, der []byte) *simHTTPSub {
 	before := len(cur.pendingLeaves)
 	in.l.poolMu.Unlock()
 	h := in.l.Handler()
-	go func() { h.ServeHTTP(sub.rec, req); close(sub.done) }()
+	go func() {
+		defer close(sub.done)
+		defer func() {
+			// a panic of the handler would take the whole test process down; it is reported by simHTTPCollect instead
+			if r := recover(); r != nil {
+				sub.panicked = fmt.Sprint(r)
+			}
+		}()
+		h.ServeHTTP(sub.rec, req)
+	}()
 	start := time.Now()
 	for i := 0; ; i++ {
 		select {
@@ -195,6 +205,9 @@ func (s *simSys) simHTTPCollect(in *simInst, subs []*simHTTPSub, res *simRoundRe
 			}
 		}
 		sub.stop()
+		if sub.panicked != "" && !in.p.dead {
+			return nil, fmt.Errorf("the %s handler panicked while answering the submission of entry %d: %s", sub.Entry.Shape, sub.Entry.ID, sub.panicked)
+		}
 		if in.p.dead || sub.rec.Code != http.StatusOK {
 			if sub.rec.Code >= 400 && sub.rec.Code < 500 && !in.p.dead {
 				return nil, fmt.Errorf("valid chain refused with %d: %s", sub.rec.Code, sub.rec.Body.String())
